@@ -163,7 +163,16 @@ macro_rules! abs_tuple {
     )* }
 }
 abs_tuple!((A 0) (A 0, B 1) (A 0, B 1, C 2) (A 0, B 1, C 2, D 3)
+           (A 0, B 1, C 2, D 3, E 4) (A 0, B 1, C 2, D 3, E 4, F 5) (A 0, B 1, C 2, D 3, E 4, F 5, G 6) (A 0, B 1, C 2, D 3, E 4, F 5, G 6, H 7)
+           (A 0, B 1, C 2, D 3, E 4, F 5, G 6, H 7, I 8) (A 0, B 1, C 2, D 3, E 4, F 5, G 6, H 7, I 8, J 9)
+           (A 0, B 1, C 2, D 3, E 4, F 5, G 6, H 7, I 8, J 9, K 10) (A 0, B 1, C 2, D 3, E 4, F 5, G 6, H 7, I 8, J 9, K 10, L 11)
+           (A 0, B 1, C 2, D 3, E 4, F 5, G 6, H 7, I 8, J 9, K 10, L 11, M 12) (A 0, B 1, C 2, D 3, E 4, F 5, G 6, H 7, I 8, J 9, K 10, L 11, M 12, N 13)
+           (A 0, B 1, C 2, D 3, E 4, F 5, G 6, H 7, I 8, J 9, K 10, L 11, M 12, N 13, O 14)
            (A 0, B 1, C 2, D 3, E 4, F 5, G 6, H 7, I 8, J 9, K 10, L 11, M 12, N 13, O 14, P 15));
+impl<T: Abs + Clone> Abs for std::borrow::Cow<'static, [T]> {
+    fn to_abs(&self) -> Value { seq(self.iter()) }
+    fn gen(rng: &mut StdRng, d: u32) -> Self { std::borrow::Cow::Owned(Vec::gen(rng, d)) }
+}
 impl Abs for () { fn to_abs(&self) -> Value { json!({"k":"unit"}) } fn gen(_: &mut StdRng, _: u32) -> Self {} }
 impl<T> Abs for core::marker::PhantomData<T> { fn to_abs(&self) -> Value { json!({"k":"unit"}) } fn gen(_: &mut StdRng, _: u32) -> Self { core::marker::PhantomData } }
 impl<T: Abs> Abs for core::num::Wrapping<T> { fn to_abs(&self) -> Value { self.0.to_abs() } fn gen(rng: &mut StdRng, d: u32) -> Self { core::num::Wrapping(T::gen(rng, d)) } }
@@ -307,6 +316,8 @@ registry!(reg,
     "unit" => (), "phantom" => core::marker::PhantomData<u8>,
     "tup1" => (u8,), "tup2" => (u8, String), "tup3" => (i16, bool, Option<u8>), "tup4" => (u64, String, f32, ()),
     "tup16" => (u8, u8, u8, u8, u8, u8, u8, u8, u8, u8, u8, u8, u8, u8, u8, u8),
+    "tup5" => (u8, i16, u8, i16, u8), "tup6" => (u8, i16, u8, i16, u8, i16), "tup7" => (u8, i16, u8, i16, u8, i16, u8), "tup8" => (u8, i16, u8, i16, u8, i16, u8, i16), "tup9" => (u8, i16, u8, i16, u8, i16, u8, i16, u8), "tup10" => (u8, i16, u8, i16, u8, i16, u8, i16, u8, i16), "tup11" => (u8, i16, u8, i16, u8, i16, u8, i16, u8, i16, u8), "tup12" => (u8, i16, u8, i16, u8, i16, u8, i16, u8, i16, u8, i16), "tup13" => (u8, i16, u8, i16, u8, i16, u8, i16, u8, i16, u8, i16, u8), "tup14" => (u8, i16, u8, i16, u8, i16, u8, i16, u8, i16, u8, i16, u8, i16), "tup15" => (u8, i16, u8, i16, u8, i16, u8, i16, u8, i16, u8, i16, u8, i16, u8),
+    "cowsliceu16" => std::borrow::Cow<'static, [u16]>, "arr2tup" => [(u8, bool); 2], "vecarr" => Vec<[u8; 3]>, "optbox" => Option<Box<i32>>, "boxvec" => Box<Vec<String>>,
     "arr0u8" => [u8; 0], "arr1string" => [String; 1], "arr3i32" => [i32; 3], "arr16u8" => [u8; 16], "arr32u8" => [u8; 32],
     "vecu8" => Vec<u8>, "vecstring" => Vec<String>, "vecvecu16" => Vec<Vec<u16>>, "vecoptbool" => Vec<Option<bool>>, "vecdequei32" => VecDeque<i32>, "linkedlistu64" => LinkedList<u64>,
     "btreesetu16" => BTreeSet<u16>, "binaryheapu8" => BinaryHeap<u8>, "hashsetstring" => HashSet<String>, "hashseti32" => HashSet<i32>,
